@@ -1,8 +1,12 @@
 module jivaverif/harness
 
-go 1.19
+go 1.21
 
-require github.com/openebs/jiva v0.0.0
+require (
+	github.com/openebs/jiva v0.0.0
+	github.com/openebs/sparse-tools v1.1.0
+	github.com/sirupsen/logrus v1.7.0
+)
 
 require (
 	github.com/beorn7/perks v1.0.1 // indirect
@@ -18,7 +22,6 @@ require (
 	github.com/gorilla/websocket v1.4.1 // indirect
 	github.com/matttproud/golang_protobuf_extensions v1.0.1 // indirect
 	github.com/natefinch/lumberjack v2.0.0+incompatible // indirect
-	github.com/openebs/sparse-tools v1.1.0 // indirect
 	github.com/pkg/errors v0.9.1 // indirect
 	github.com/prometheus/client_golang v1.5.1 // indirect
 	github.com/prometheus/client_model v0.2.0 // indirect
@@ -26,7 +29,6 @@ require (
 	github.com/prometheus/procfs v0.0.8 // indirect
 	github.com/rancher/go-rancher v0.1.1-0.20190307222549-9756097e5e4c // indirect
 	github.com/satori/go.uuid v1.2.0 // indirect
-	github.com/sirupsen/logrus v1.7.0 // indirect
 	go.uber.org/atomic v1.6.0 // indirect
 	go.uber.org/multierr v1.5.0 // indirect
 	go.uber.org/zap v1.14.1 // indirect
